@@ -7,7 +7,11 @@
 #include <new>
 #include <span>
 using namespace unodb;
-using W = qsbr_ptr<std::uint8_t>;
+#ifndef ELEM
+#define ELEM std::uint8_t          // element type of the wrapped pointers: results must not depend on sizeof(T)
+#endif
+using E = ELEM;
+using W = qsbr_ptr<E>;
 #ifndef STEPS
 #define STEPS 4
 #endif
@@ -25,10 +29,10 @@ std::uint64_t gh_reg_count(void) noexcept;                 // ghost: number of r
 std::uint64_t gh_reg_mult(const void* p) noexcept;         // ghost: multiplicity of p
 std::uint64_t gh_reg_errors(void) noexcept;                // ghost: unregister calls for a pointer that was not registered
 }
-static std::uint8_t bufs[NBUF][BUFSZ];
+static E bufs[NBUF][BUFSZ];
 struct slot { alignas(W) unsigned char mem[sizeof(W)]; bool alive; int b; long off; /* shadow: buffer (-1 = null) and offset */
   W& w() { return *std::launder(reinterpret_cast<W*>(mem)); } };
-static std::uint8_t* raw(const slot& s) { return s.b < 0 ? nullptr : &bufs[s.b][0] + s.off; }
+static E* raw(const slot& s) { return s.b < 0 ? nullptr : &bufs[s.b][0] + s.off; }
 
 static void check_all(slot (&s)[NSLOT]) {
   std::uint64_t live = 0;
@@ -101,12 +105,12 @@ HARNESS(h_qptr_seq) {
 HARNESS(h_qptr_span) {
   const std::size_t o = in_range(0, BUFSZ), l = in_range(0, BUFSZ);
   ASSUME(o + l <= BUFSZ);
-  std::span<std::uint8_t> src{&bufs[0][0] + o, l};
-  qsbr_ptr_span<std::uint8_t> sp{src};
+  std::span<E> src{&bufs[0][0] + o, l};
+  qsbr_ptr_span<E> sp{src};
   PROP(sp.size() == src.size(), "C17: span size equals the source span's");
   PROP(sp.begin().get() == src.data() && sp.end().get() == src.data() + src.size(), "C17: span begin/end equal the source span's");
   PROP(static_cast<std::size_t>(sp.end() - sp.begin()) == l, "C17: span yields as many elements as the source");
-  qsbr_ptr_span<std::uint8_t> cp{sp}, mv{std::move(cp)}, as; as = mv;
+  qsbr_ptr_span<E> cp{sp}, mv{std::move(cp)}, as; as = mv;
   PROP(as.begin().get() == src.data() && as.size() == l, "C17: copies, moves and assignments of a span keep begin and size");
   std::size_t cnt = 0; for (auto it = as.begin(); !(it == as.end()); ++it) { PROP(&*it == src.data() + cnt, "C17: iterating the wrapper span visits the source elements in order"); cnt++; }
   PROP(cnt == l, "C17: iteration visits exactly size() elements");
